@@ -26,7 +26,7 @@ def removable(G, n):
 FUNCTIONS = {
     HM + "::h_to_implicit": {
         "params": {"G": "obj:Graph"},
-        "vars": {"h_nodes": "list[any]", "neighbors": "list[any]"},
+        "vars": {"h_nodes": "list[any]", "neighbors": "list[any]", "added": "dict[any,int]"},
         "returns": "obj:Graph",
         "requires": ["forall(G.nodes, lambda n: isinstance(G.nodes[n].get('hcount', 0), int))"],
         "modifies": [],
@@ -44,14 +44,21 @@ FUNCTIONS = {
             "forall(result.nodes, lambda n: implies(not exists(G.nodes, lambda h: G.has_edge(n, h) and removable(G, h)), "
             "       same(result.nodes[n].get('hcount'), G.nodes[n].get('hcount'))))",
         ],
+        # exact counts, with the number of removed hydrogen neighbours given by the ghost counter `added` (one increment per
+        # removed hydrogen and heavy neighbour, see the ghost step of loop 2)
+        "ghost_ensures": ["forall(result.nodes, lambda n: result.nodes[n].get('hcount', 0) == G.nodes[n].get('hcount', 0) + added.get(n, 0))",
+                          "forall('any', lambda n: added.get(n, 0) >= 0)"],
         "loops": {
             1: {"modifies": ["H2.nodes", "H2.nattr", "H2.adj", "H2.eattr"],
+                "ghost_init": ["added = {}"],
                 "step_hints": [
                     "implies(not H2.has_node(h), removable(G, h))",
                     "implies(H2.has_node(h), not removable(G, h))",
                     "forall('any', lambda n: implies(not same(n, h), H2.has_node(n) == at_iter(H2.has_node(n))))",
                     "forall(H2.nodes, lambda n: implies(H2.has_node(h) or not G.has_edge(n, h), same(H2.nodes[n].get('hcount'), at_iter(H2.nodes[n].get('hcount')))))",
                     "forall(H2.nodes, lambda n: at_iter(H2.has_node(n)))",
+                    # what the ghost counter counts: +1 for every heavy neighbour of a hydrogen that was removed in this iteration
+                    "forall('any', lambda n: added.get(n, 0) == at_iter(added.get(n, 0)) + (1 if (not H2.has_node(h) and G.has_node(n) and G.has_edge(n, h) and not is_h(G, n)) else 0))",
                     "forall(range(len(h_nodes)), lambda i: implies(not same(h_nodes[i], h), H2.has_node(h_nodes[i]) == at_iter(H2.has_node(h_nodes[i]))))",
                     "forall(H2.nodes, lambda n: implies(at_iter(forall(range(done), lambda i: implies(G.has_edge(n, h_nodes[i]), H2.has_node(h_nodes[i])))), "
                     "       at_iter(same(H2.nodes[n].get('hcount'), G.nodes[n].get('hcount')))))",
@@ -70,12 +77,21 @@ FUNCTIONS = {
                     "forall(H2.nodes, lambda n: isinstance(H2.nodes[n].get('hcount', 0), int))",
                     "forall(('any', 'any'), lambda u, v: H2.has_edge(u, v) == (G.has_edge(u, v) and H2.has_node(u) and H2.has_node(v)))",
                     "forall(H2.edges, lambda u, v: same(H2[u][v], G[u][v]))",
+                    "forall(H2.nodes, lambda n: H2.nodes[n].get('hcount', 0) == G.nodes[n].get('hcount', 0) + added.get(n, 0))",
+                    "forall('any', lambda n: added.get(n, 0) >= 0)",
                     # an atom all of whose already processed hydrogen neighbours are still present has its original count
                     "forall(H2.nodes, lambda n: implies(forall(range(done), lambda i: implies(G.has_edge(n, h_nodes[i]), H2.has_node(h_nodes[i]))), "
                     "       same(H2.nodes[n].get('hcount'), G.nodes[n].get('hcount'))))",
                 ]},
             2: {"modifies": ["H2.nattr"],
+                "ghost_step": ["if H2.nodes[heavy].get('element') != 'H':\n    added[heavy] = added.get(heavy, 0) + 1"],
                 "inv": [
+                    # the hydrogen count moves in step with the ghost counter
+                    "forall(H2.nodes, lambda n: H2.nodes[n].get('hcount', 0) - at_iter(H2.nodes[n].get('hcount', 0)) == added.get(n, 0) - at_iter(added.get(n, 0)))",
+                    "forall('any', lambda n: added.get(n, 0) >= at_iter(added.get(n, 0)) and added.get(n, 0) <= at_iter(added.get(n, 0)) + 1)",
+                    "forall('any', lambda n: implies(added.get(n, 0) != at_iter(added.get(n, 0)), H2.has_edge(h, n) and not is_h(G, n)))",
+                    "forall('any', lambda n: implies(added.get(n, 0) != at_iter(added.get(n, 0)), n in done))",
+                    "forall(done, lambda n: implies(not is_h(G, n), added.get(n, 0) == at_iter(added.get(n, 0)) + 1))",
                     "forall('any', lambda n: H2.has_node(n) == at_iter(H2.has_node(n)))",
                     "forall(('any', 'any'), lambda u, v: H2.has_edge(u, v) == at_iter(H2.has_edge(u, v)))",
                     "forall(H2.nodes, lambda n: forall('str', lambda k: implies(k != 'hcount', same(H2.nodes[n].get(k), at_iter(H2.nodes[n].get(k))))))",
